@@ -207,6 +207,29 @@ def dp_mixed(n, s):
     return best
 
 
+def dp_mixed_table(N, S):
+    """dp_mixed for all 1<=n<=N, 0<=s<=S as a numpy int table (vectorised over
+    the split point; same recurrence as dp_mixed, validated against it and
+    against the exhaustive search by the callers)."""
+    import numpy as np
+    BIG = 1 << 60
+    M = np.full((N + 1, S + 1), BIG, dtype=np.int64)
+    for n in range(1, N + 1):
+        for s in range(0, S + 1):
+            if n <= min(s, n - 1) + 1:
+                M[n, s] = n
+    for s in range(1, S + 1):
+        for n in range(s + 2, N + 1):
+            best = 1 + M[n - 1, s - 1]
+            if s == 1:
+                best = min(best, n * (n + 1) // 2 - 1)
+            else:
+                i = np.arange(2, n)
+                best = min(best, int((i + M[2:n, s] + M[n - 2:0:-1, s - 1]).min()))
+            M[n, s] = best
+    return M
+
+
 class HierDP:
     """H-Revolve ("state stored / not yet stored at level k") and Disk-Revolve
     recurrences in stream-cost units, exact ints."""
